@@ -229,4 +229,69 @@ inline void shared_future_mt(const vf::opts &o, vf::report &R, vf::team &T, uint
     }
 }
 
+// ---------------------------------------------------------------------------------------------
+// Trivially destructible result types (int, void): the shared state must still release everything it stores - in particular the
+// exception object of an exception outcome - exactly once (LeakSanitizer / ASan judge), for every order of resolution, copying,
+// awaiting and dropping the handles.
+template <typename T> cocls::async<void> sft_waiter(cocls::shared_future<T> f, sf_obs &ob) {
+    try {
+        if constexpr (std::is_void_v<T>) { co_await f; ob.state = PS_VALUE; ob.val = 0; }
+        else { T &v = co_await f; ob.state = PS_VALUE; ob.val = (uint64_t)v; }
+    } catch (const vf::test_exc &e) { ob.state = PS_EXC; ob.code = e.code; }
+    catch (const cocls::await_canceled_exception &) { ob.state = PS_CANCELED; }
+    ob.released.fetch_add(1, std::memory_order_relaxed);
+}
+template <typename T> std::string sft_history(vf::rng &r, std::string &trace) {
+    using SF = cocls::shared_future<T>;
+    std::string err;
+    int path = (int)r.below(3), kind = (int)r.below(3);
+    trace = std::string(std::is_void_v<T> ? "shared_future<void> " : "shared_future<int> ") + "make" + std::to_string(path) + " ";
+    cocls::promise<T> prom;
+    std::vector<std::unique_ptr<SF>> handles;
+    std::deque<sf_obs> obs;
+    if (path == 0) handles.push_back(std::make_unique<SF>([&](cocls::promise<T> p) { prom = std::move(p); }));
+    else if (path == 1) handles.push_back(std::make_unique<SF>([&]() -> cocls::future<T> { return cocls::future<T>([&](cocls::promise<T> p) { prom = std::move(p); }); }));
+    else { handles.push_back(std::make_unique<SF>()); prom = handles.back()->get_promise(); }
+    auto resolve = [&] {
+        trace += "resolve" + std::to_string(kind) + " ";
+        if (kind == SFR_VALUE) { if constexpr (std::is_void_v<T>) prom(); else prom(42); }
+        else if (kind == SFR_EXC) prom(vf::make_exc(77));
+        else { cocls::promise<T> q = std::move(prom); }
+    };
+    int len = 1 + (int)r.below(10), resolve_at = (int)r.below((uint32_t)len + 1);
+    bool resolved = false;
+    for (int step = 0; step <= len; step++) {
+        if (step == resolve_at) { resolve(); resolved = true; }
+        if (step == len) break;
+        size_t live = 0; for (auto &h : handles) if (h) live++;
+        if (!live) continue;
+        size_t hi; do { hi = r.below((uint32_t)handles.size()); } while (!handles[hi]);
+        uint32_t x = r.below(8);
+        if (x < 3) { trace += "copy "; handles.push_back(std::make_unique<SF>(*handles[hi])); }
+        else if (x < 6) { trace += "await "; obs.emplace_back(); sft_waiter<T>(*handles[hi], obs.back()).detach(); }
+        else { trace += "drop "; handles[hi].reset(); }
+    }
+    (void)resolved;
+    for (size_t i = 0; i < obs.size() && err.empty(); i++) {
+        if (obs[i].released.load() != 1) err = "observer #" + std::to_string(i) + " released " + std::to_string(obs[i].released.load()) + " times";
+        else if (!sf_expected(obs[i], kind, kind == SFR_VALUE ? (std::is_void_v<T> ? 0 : 42) : 77)) err = "observer #" + std::to_string(i) + " saw " + obs[i].str();
+    }
+    handles.clear();
+    return err;
+}
+inline void shared_future_trivial_types(const vf::opts &o, vf::report &R, uint64_t histories) {
+    vf::rng master(vf::mix(o.seed, 0x717));
+    for (uint64_t hn = 0; hn < histories && R.nviol() < 5; hn++) {
+        vf::rng r(master.next());
+        vf::set_crash_ctx(R.prop.c_str(), "shared_future_trivial_types", o.seed, hn);
+        std::string trace;
+        std::string err = hn % 2 ? sft_history<int>(r, trace) : sft_history<void>(r, trace);
+        R.cases++;
+        if (!err.empty()) { R.violation("monitor:shared_state|shared_future_trivial_types", err, vf::jobj().kv("history", (unsigned long long)hn).kv("ops", trace).str()); continue; }
+        R.nontrivial_cases++;
+        R.sig(trace);
+        if (R.samples.size() < 2 && trace.size() > 40) R.sample(vf::jobj().kv("ops", trace).kv("result", "all observers agree; nothing leaked (LeakSanitizer at exit)").str());
+    }
+}
+
 } // namespace scn
